@@ -156,7 +156,9 @@ def run(ctx):
                                                       "orphaned:death" if ("dead" in r.get("results", "").split(";") or "crash" in r.get("steps", "")
                                                                            or r.get("killed") == "1") else "alive-or-none"),
                                        "winner_failed_to_compile": "1" if "compile" in r.get("results", "").split(";") else "0",
-                                       "stale_version": "1" if "ok1" in r.get("results", "").split(";") + [r.get("later", "")] else "0"})
+                                       "stale_version": "1" if any(t.startswith("ok") and t != ("ok22" if r.get("scanner") == "1" else "ok2")
+                                                                   for t in r.get("results", "").split(";") + [r.get("later", "")]) else "0",
+                                       "scanner": r.get("scanner", "0"), "stalekind": r.get("stalekind", "-")})
         if kv["corr"].startswith("skip"):
             corr_skip += 1
         else:
